@@ -78,6 +78,15 @@ def _conv(cname, argstr):
                     and s.lower().strip('+-') not in ('nan', 'inf', 'infinity')):
                 return VETO
             raise Unspecified('float(%r)' % s)
+    elif cname == 'hex':
+        # a converter of the harness (registered as 'hex'; its class is called IntConverter, like the
+        # built-in one): hexadecimal digits, optionally exactly `num_digits` of them
+        hnd = k.get('num_digits', a[0] if a else None)
+
+        def f(s):
+            if not re.match(r'[0-9a-f]+$', s) or (hnd is not None and len(s) != hnd):
+                return VETO
+            return int(s, 16)
     elif cname == 'uuid':
         def f(s):
             if _UUID.match(s):
